@@ -1,8 +1,10 @@
 """C03 — message ownership, memory safety and no leaks (API-visible clauses, all protocols)."""
+import json
 from .. import generic
+from . import c03_options
 
 PROP = "C03"
-MODULES = ["NngModel.Props.C03"]
+MODULES = ["NngModel.Props.C03", "NngModel.Props.C03Options"]
 
 
 def augment(r, ops):
@@ -26,6 +28,9 @@ EXTRA = {
 
 
 def run(tier, seed, replay=None):
+    if replay and json.load(open(replay)).get("sub") == c03_options.SUB:
+        return c03_options.run(tier, seed, replay)
     return generic.run_generic(PROP, MODULES, "own-judge", tier, seed, replay, augment, 1500, 30000,
                                "event histories of every modelled protocol (providers in vlib/protos.py) ending with `fini` (close everything, nng_fini, "
-                               "accounting-allocator balance); ASan/UBSan/LSan build; judged by Spec/Generic.lean ownStep", extra=EXTRA)
+                               "accounting-allocator balance); ASan/UBSan/LSan build; judged by Spec/Generic.lean ownStep; " + c03_options.RULE, extra=EXTRA,
+                               parts=[("options_part", c03_options.run_part)])
